@@ -260,12 +260,16 @@ CHECKS["C18"] = dict(
 CHECKS["C16"] = dict(
    text="Machine-checked proof (Coq) for the one core claripy computes itself: when SatCacheMixin._add finds that And(con, added) builds to the "
         "constant False, the pair it caches as unsat core is unsatisfiable under every assignment (C16_shortcut_core_unsat, corollary of the "
-        "construction soundness theorem); the shortcut is replayed on the construction model. Cores read back from Z3 (tracking names, "
-        "clone/translate after branch, re-tracking after simplification, CompositeFrontend.unsat_core) are NOT modelled: tracked Solver and "
+        "construction soundness theorem); the shortcut is replayed on the construction model. For cores read back from Z3 the tracking "
+        "bookkeeping of BackendZ3._add/_unsat_core is modelled (Model/Track.v): with collision-free names the tracked solver holds exactly "
+        "what was added (C16_track_exact), the returned core consists of tracked constraints (C16_core_subset) and is unsatisfiable "
+        "whenever the constraints Z3 names are (C16_core_unsat); a name collision silently drops a constraint (C16_collision_refuted). Tie: "
+        "the extracted tracking model against a raw tracked Z3 solver (assertion names in order, core selected by the reported names). "
+        "clone/translate after branch, re-tracking after simplification and CompositeFrontend.unsat_core are NOT modelled: tracked Solver and "
         "SolverComposite objects are driven to unsatisfiability by random histories and the core is judged against enumeration (members were "
         "added, conjunction unsatisfiable, empty iff satisfiable). On the pinned tree cores are wrong after simplifying queries, after branch() "
         "and for the composite solver: known findings by scenario class.",
-   design="5/C16", technique="Coq corollary for the cached shortcut core; enumeration tests of Z3-derived cores with scenario-class known findings",
+   design="5/C16", technique="Coq proofs for the cached shortcut core and the tracking bookkeeping; correspondence by extraction; enumeration tests of Z3-derived cores",
    note="Trusted: Coq kernel; Z3's core is an unsat subset of the tracked assertions. Mostly testing. Two defects repaired (nested list in the "
         "cached core; empty core when unsatisfiability was known only from a cache).")
 
